@@ -1,5 +1,5 @@
 #!/usr/bin/env python3
-"""tools/selftest.py [--suite] [--only Cxx]: sensitivity of the checks to small hand-written mutants (DESIGN.md Appendix B).
+"""tools/selftest.py [--suite] [--only Cxx] [--id mNN,mMM]: sensitivity of the checks to small hand-written mutants (DESIGN.md Appendix B).
 
 Each mutant is one textual edit of the library.  It is applied to a scratch worktree of /repo HEAD (under /tmp, removed afterwards);
 the matching check runs against that worktree (VERIF_REPO); with --suite the pinned test suite runs there too, to show which mutants
@@ -88,12 +88,15 @@ EQUIVALENT = {"m17", "m32", "m33", "m41", "m41b", "m42"}
 def main():
     only = sys.argv[sys.argv.index("--only") + 1] if "--only" in sys.argv else None
     suite = "--suite" in sys.argv
+    ids = sys.argv[sys.argv.index("--id") + 1].split(",") if "--id" in sys.argv else None
     out = {}
     path = "/verif/seeded/selftest.json"
     if os.path.exists(path):
         out = json.load(open(path))
     for mid, check, rel, old, new in M:
         if only and check != only:
+            continue
+        if ids and mid not in ids:
             continue
         wt = f"/tmp/mut_{mid}"
         subprocess.run(f"git -C /repo worktree remove --force {wt}", shell=True, capture_output=True)
